@@ -178,32 +178,33 @@ def run(cx):
                         r.stat.failed += 1
 
     # ---- C20-SLEEP ---------------------------------------------------------------------------
-    r = cx.rule("C20-SLEEP", "sleep(ms) raises ValueError for negatives before anything else and otherwise calls the sleeper exactly once, with ms/1000", floor=4)
+    r = cx.rule("C20-SLEEP", "sleep(ms), evaluated with a recording sleeper (injected, and the default time.sleep): a negative duration raises ValueError and nothing waits; every other duration makes exactly one wait of ms/1000 seconds", floor=20, exhaustive=True)
     sl = utils.func("sleep")
-    sloc = Locals(sl)
-    sleeper_names = {n for n, d in sloc.defs.items() if len(d) == 1 and isinstance(d[0], ast.expr) and ("sleep_func" in norm(d[0]) or "time.sleep" in norm(d[0]))} | {"sleep_func"}
-    is_sleep_call = lambda c: isinstance(c, ast.Call) and ((isinstance(c.func, ast.Name) and c.func.id in sleeper_names) or call_name(c) == "time.sleep")
-    cc = CallCount(is_sleep_call).run_function(sl, (0, 0))
-    ex = exits_of(cc, sl)
-    r.check(bool(ex) and all(e == (1, 1) for e in ex), "sleep/sleeper-called-exactly-once", (utils, sl), f"number of sleeper calls per non-raising path is {ex}, expected exactly one")
-    body = [s for s in sl.body if not (isinstance(s, ast.Expr) and isinstance(s.value, ast.Constant))]
-    first = body[0] if body else None
-    okg = isinstance(first, ast.If) and bounds_of(first.test, True, "duration").hi == 0 and bounds_of(first.test, True, "duration").hi_s and any(isinstance(x, ast.Raise) for x in first.body)
-    r.check(okg, "sleep/negative-rejected-first", (utils, first or sl), "the first statement must reject duration < 0")
-    if okg:
-        rz = [x for x in first.body if isinstance(x, ast.Raise)][0]
-        r.check(dotted(rz.exc.func if isinstance(rz.exc, ast.Call) else rz.exc) == "ValueError", "sleep/negative-ValueError", (utils, rz), "negative duration must raise ValueError")
-    subst = {k: v[0] for k, v in sloc.defs.items() if len(v) == 1 and isinstance(v[0], ast.expr)}
-    oracle = ast.parse("duration / 1000", mode="eval").body
-    for c in [c for c in calls_in(sl) if is_sleep_call(c)]:
-        try:
-            eq = len(c.args) == 1 and rat_equal(c.args[0], oracle, subst, {})
-        except ValueError:
-            eq = False
-        r.check(eq, "sleep/argument=ms/1000", (utils, c), f"the sleeper receives `{norm(c.args[0]) if c.args else ''}` (with {', '.join(k + '=' + norm(v) for k, v in subst.items())}), expected duration/1000 seconds")
-    fb = sloc.defs.get("sleeper", [None])[0]
-    if fb is not None:
-        r.check(norm(fb) in ("sleep_func or time.sleep", "time.sleep if sleep_func is None else sleep_func", "sleep_func if sleep_func is not None else time.sleep"), "sleep/sleeper=injected-or-time.sleep", (utils, fb), f"sleeper is `{norm(fb)}`")
+
+    class _Time(dl.Synth):
+        pass
+
+    for d_ in (-1, -0.001, -1e9, -250, 0, 0.0, 1, 250, 1500, 2.5, 0.4, True, 1e6, 59999):
+        for injected in (True, False):
+            waits = []
+            rec = lambda secs, _w=waits: _w.append(secs)
+            rec._dl_lambda = True
+            tm = _Time()
+            tm.sleep = rec
+            try:
+                if injected:
+                    out = dl.Interp(utils, opaque={"time.sleep": lambda secs: waits.append(("default", secs))}, extra_env={"time": tm}).call(sl, [d_], {"sleep_func": rec})
+                else:
+                    out = dl.Interp(utils, opaque={"time.sleep": rec}, extra_env={"time": tm}).call(sl, [d_])
+            except dl.Unsupported as e:
+                raise AnalysisError(f"Utils.sleep left the evaluable subset: {e}")
+            if d_ < 0:
+                ok = out.kind == "raise" and out.value == "ValueError" and not waits
+                want = "ValueError and no wait"
+            else:
+                ok = out.kind == "return" and len(waits) == 1 and isinstance(waits[0], (int, float)) and abs(waits[0] - d_ / 1000) <= 1e-12
+                want = f"exactly one wait of {d_ / 1000} s"
+            r.check(ok, f"sleep/{'negative-refused-before-waiting' if d_ < 0 else 'one-wait-of-ms/1000'}[{'injected' if injected else 'time.sleep'}]", (utils, sl), f"sleep({d_!r}) with {'an injected sleeper' if injected else 'the default sleeper'} -> {out!r}, waits {waits}; expected {want}", sample=f"sleep({d_!r})")
 
     rule_sensors(cx, "C20-SENSORS")
     from . import c10
